@@ -1,6 +1,6 @@
 (* C07 — proofs about coq/C07/Model.v. *)
 From Coq Require Import String ZArith NArith Bool List Ascii Lia.
-From DV Require Import Base.Dec C07.Model.
+From DV Require Import Base.Dec C07.Model C07.Digits.
 Import ListNotations.
 Open Scope char_scope.
 Open Scope Z_scope.
@@ -21,3 +21,303 @@ Lemma print_nontrivial :
   print (mkdec true 12345 (-2)) = Some (rd "-123.45"%string) /\
   print (mkdec false 0 3) = Some (rd "0"%string).
 Proof. vm_compute. repeat split. Qed.
+
+(* ---------------------------------------------------------------- positional rendering, without the scientific detour *)
+Definition render_unsigned (c : N) (e : Z) : str :=
+  let ds := digits_of c in
+  let pre := len ds + e in
+  if 0 <? e then (if (c =? 0)%N then ["0"] else ds ++ zeros (Z.to_nat e))
+  else if e =? 0 then ds
+  else if 0 <? pre then firstn (Z.to_nat pre) ds ++ "." :: skipn (Z.to_nat pre) ds
+  else "0" :: "." :: zeros (Z.to_nat (- pre)) ++ ds.
+
+Lemma lacksE_digits : forall s, all_digits s = true -> lacksb "E" s = true.
+Proof. apply all_digits_lacks. exact digit_not_E. Qed.
+Lemma lacksdot_digits : forall s, all_digits s = true -> lacksb "." s = true.
+Proof. apply all_digits_lacks. exact digit_not_dot. Qed.
+
+Lemma orig_no_E : forall s, lacksb "E" s = true -> sci_to_plain_orig s = Some s.
+Proof. intros s H. unfold sci_to_plain_orig. rewrite !(split_pat_none "E" _ s H). reflexivity. Qed.
+
+Lemma unsigned_no_E : forall s, lacksb "E" s = true -> sci_to_plain_unsigned s = Some s.
+Proof. intros s H. unfold sci_to_plain_unsigned. rewrite (split_pat_none "E" _ s H). apply orig_no_E. exact H. Qed.
+
+Lemma lacksb_cons : forall c a s, lacksb c (a :: s) = negb (Ascii.eqb a c) && lacksb c s.
+Proof. reflexivity. Qed.
+
+Lemma len_cons : forall (a : ascii) s, len (a :: s) = 1 + len s.
+Proof. intros. unfold len. cbn [length]. lia. Qed.
+
+Theorem unsigned_render : forall c e, sci_to_plain_unsigned (to_sci_unsigned c e) = Some (render_unsigned c e).
+Proof.
+  intros c e.
+  destruct (digits_of_ok c) as [D1 D2 D3 D4].
+  destruct (digits_of_nonempty c) as (c1 & rest & Eds & Hc1 & Hrest).
+  unfold to_sci_unsigned, render_unsigned. rewrite Eds in *. cbv zeta.
+  assert (HlE : lacksb "E" (c1 :: rest) = true) by (apply lacksE_digits; exact D1).
+  destruct ((0 <? e) || (len (c1 :: rest) + e <? -5)) eqn:Esci.
+  - (* exponential form *)
+    set (adj := len (c1 :: rest) + e - 1).
+    set (mant := c1 :: match rest with [] => [] | _ :: _ => "." :: rest end).
+    assert (HmE : lacksb "E" mant = true).
+    { unfold mant. destruct rest as [|r rest']; [exact HlE|].
+      cbn [lacksb forallb] in *. apply andb_true_iff in HlE. destruct HlE as [A B]. rewrite A. cbn. exact B. }
+    pose proof (digits_of_ok (Z.abs_N adj)) as [X1 X2 _ _].
+    assert (HxE : lacksb "E" (digits_of (Z.abs_N adj)) = true) by (apply lacksE_digits; exact X1).
+    destruct (adj <? 0) eqn:Eadj.
+    + (* E- *)
+      apply Z.ltb_lt in Eadj.
+      assert (He : (0 <? e) = false).
+      { apply Z.ltb_ge. rewrite len_cons in *. unfold adj in Eadj. unfold len in *. lia. }
+      unfold sci_to_plain_unsigned.
+      rewrite (split_pat_wrong "E" "+" "-" mant (digits_of (Z.abs_N adj)) HmE); [| rewrite lacksb_cons, HxE; reflexivity | reflexivity].
+      unfold sci_to_plain_orig.
+      rewrite (split_pat_wrong "E" "+" "-" mant (digits_of (Z.abs_N adj)) HmE); [| rewrite lacksb_cons, HxE; reflexivity | reflexivity].
+      rewrite (split_pat_found "E" "-" mant _ HmE).
+      unfold next_piece. rewrite (split_pat_none "E" "-" _ HxE). rewrite parse_usize_digits.
+      rewrite He.
+      assert (Hez : (e =? 0) = false).
+      { apply Z.eqb_neq. rewrite He in Esci. cbn [orb] in Esci. apply Z.ltb_lt in Esci. rewrite len_cons in Esci. unfold len in *. lia. }
+      rewrite Hez.
+      assert (Hpre : (0 <? len (c1 :: rest) + e) = false).
+      { apply Z.ltb_ge. unfold adj in Eadj. lia. }
+      rewrite Hpre.
+      assert (Hz : N.to_nat (Z.abs_N adj - 1) = Z.to_nat (- (len (c1 :: rest) + e))).
+      { unfold adj in *. lia. }
+      rewrite Hz.
+      unfold mant. destruct rest as [|r rest'].
+      * rewrite (contains_none "." [c1]); [reflexivity|]. apply lacksdot_digits. exact D1.
+      * change (c1 :: "." :: r :: rest') with ([c1] ++ "." :: r :: rest').
+        rewrite contains_found. unfold split_two.
+        rewrite (split_char_found "." [c1] (r :: rest')); [| apply lacksdot_digits; cbn; rewrite Hc1; reflexivity].
+        rewrite (split_char_none "." (r :: rest')); [| apply lacksdot_digits; exact Hrest].
+        cbn [fst app]. reflexivity.
+    + (* E+ *)
+      apply Z.ltb_ge in Eadj.
+      assert (He : (0 <? e) = true).
+      { destruct (0 <? e) eqn:E0; [reflexivity|]. cbn [orb] in Esci. apply Z.ltb_lt in Esci. unfold adj in Eadj. lia. }
+      rewrite He. apply Z.ltb_lt in He.
+      unfold sci_to_plain_unsigned.
+      rewrite (split_pat_found "E" "+" mant _ HmE).
+      unfold next_piece. rewrite (split_pat_none "E" "+" _ HxE). rewrite parse_usize_digits.
+      unfold mant. destruct rest as [|r rest'].
+      * rewrite (contains_none "." [c1]); [| apply lacksdot_digits; exact D1].
+        destruct (c =? 0)%N eqn:Ec.
+        -- apply N.eqb_eq in Ec. specialize (D3 Ec). injection D3 as ->. reflexivity.
+        -- apply N.eqb_neq in Ec. destruct (D4 Ec) as (c' & t' & E' & Hne). injection E' as <- <-.
+           assert (is_zero_digit [c1] = false) as Hzd.
+           { unfold is_zero_digit. destruct (Ascii.eqb_spec c1 "0") as [->|NE]; [contradiction|].
+             destruct c1 as [[] [] [] [] [] [] [] []]; try reflexivity. contradiction. }
+           rewrite Hzd.
+           assert (N.to_nat (Z.abs_N adj) = Z.to_nat e) as ->.
+           { unfold adj. rewrite len_cons. unfold len. cbn [length]. lia. }
+           reflexivity.
+      * change (c1 :: "." :: r :: rest') with ([c1] ++ "." :: r :: rest').
+        rewrite contains_found. unfold split_two.
+        rewrite (split_char_found "." [c1] (r :: rest')); [| apply lacksdot_digits; cbn; rewrite Hc1; reflexivity].
+        rewrite (split_char_none "." (r :: rest')); [| apply lacksdot_digits; exact Hrest].
+        cbn [fst].
+        assert (Hcs : checked_sub (Z.abs_N adj) (N.of_nat (length (r :: rest'))) = Some (Z.to_N e)).
+        { unfold checked_sub, adj. rewrite len_cons. unfold len.
+          destruct (Z.abs_N (1 + Z.of_nat (length (r :: rest')) + e - 1) <? N.of_nat (length (r :: rest')))%N eqn:Elt.
+          - apply N.ltb_lt in Elt. lia.
+          - f_equal. lia. }
+        rewrite Hcs.
+        assert (c =? 0 = false)%N as ->.
+        { apply N.eqb_neq. intros Z0. specialize (D3 Z0). discriminate D3. }
+        rewrite Z_N_nat. reflexivity.
+  - (* plain notation *)
+    apply orb_false_iff in Esci. destruct Esci as [He Hpre5]. rewrite He.
+    destruct (0 <? len (c1 :: rest) + e) eqn:Epre.
+    + destruct (e =? 0) eqn:Ee.
+      * apply unsigned_no_E. exact HlE.
+      * apply unsigned_no_E. rewrite lacksb_app, lacksb_cons.
+        rewrite (lacksE_digits _ (all_digits_firstn _ _ D1)), (lacksE_digits _ (all_digits_skipn _ _ D1)). reflexivity.
+    + assert (e =? 0 = false) as ->.
+      { apply Z.eqb_neq. apply Z.ltb_ge in Epre. rewrite len_cons in Epre. unfold len in Epre. lia. }
+      apply unsigned_no_E. rewrite !lacksb_cons, lacksb_app, HlE.
+      rewrite (lacksE_digits _ (all_digits_zeros _)). reflexivity.
+Qed.
+
+Lemma to_sci_unsigned_head : forall c e, exists ch t, to_sci_unsigned c e = ch :: t /\ is_digit ch = true.
+Proof.
+  intros c e. destruct (digits_of_nonempty c) as (c1 & rest & Eds & Hc1 & Hrest).
+  unfold to_sci_unsigned. rewrite Eds. cbv zeta.
+  destruct ((0 <? e) || (len (c1 :: rest) + e <? -5)).
+  - eexists _, _. split; [reflexivity | exact Hc1].
+  - destruct (0 <? len (c1 :: rest) + e) eqn:Epre.
+    + destruct (e =? 0); [eexists _, _; split; [reflexivity | exact Hc1]|].
+      apply Z.ltb_lt in Epre. destruct (Z.to_nat (len (c1 :: rest) + e)) as [|k] eqn:Ek; [lia|].
+      cbn [firstn app]. eexists _, _. split; [reflexivity | exact Hc1].
+    + eexists _, _. split; reflexivity.
+Qed.
+
+Theorem print_render : forall d, print d = Some (sign_of d ++ render_unsigned (coef d) (expo d)).
+Proof.
+  intros d. unfold print, to_sci, sign_of. destruct (neg d).
+  - cbn [app sci_to_plain]. rewrite unsigned_render. reflexivity.
+  - cbn [app]. destruct (to_sci_unsigned_head (coef d) (expo d)) as (ch & t & E & Hd).
+    pose proof (unsigned_render (coef d) (expo d)) as U. rewrite E in *.
+    unfold sci_to_plain. assert (Ascii.eqb ch "-" = false) as Hm by (apply digit_not_minus; exact Hd).
+    destruct ch as [[] [] [] [] [] [] [] []]; try discriminate Hm; exact U.
+Qed.
+
+(* ---------------------------------------------------------------- what the rendered text is and denotes *)
+Definition unsigned_denotes (u : str) : N * Z :=
+  match split_char "." u with
+  | (ip, None) => (digits_val ip, 0)
+  | (ip, Some fp) => (digits_val (ip ++ fp), - len fp)
+  end.
+
+Lemma nonempty_length : forall (s : str), s <> [] -> (length s =? 0)%nat = false.
+Proof. intros [|a s] H; [contradiction | reflexivity]. Qed.
+
+Lemma render_spec : forall c e,
+  let u := render_unsigned c e in
+  unsigned_plain u = true /\ no_leading_zero u = true /\
+  (exists ch t, u = ch :: t /\ is_digit ch = true) /\
+  let (m, k) := unsigned_denotes u in
+  Z.of_N m * 10 ^ (k - Z.min k e) = Z.of_N c * 10 ^ (e - Z.min k e).
+Proof.
+  intros c e.
+  destruct (digits_of_ok c) as [D1 D2 D3 D4].
+  destruct (digits_of_nonempty c) as (c1 & rest & Eds & Hc1 & Hrest).
+  assert (Hdot : lacksb "." (digits_of c) = true) by (apply lacksdot_digits; exact D1).
+  unfold render_unsigned. cbv zeta.
+  destruct (0 <? e) eqn:He.
+  - apply Z.ltb_lt in He. destruct (c =? 0)%N eqn:Ec.
+    + apply N.eqb_eq in Ec. subst c. cbv zeta. split; [reflexivity | split; [reflexivity | split]].
+      * exists "0", []. split; reflexivity.
+      * unfold unsigned_denotes. cbn [split_char Ascii.eqb Bool.eqb digits_val digits_acc].
+        rewrite Z.min_l by lia. cbn. reflexivity.
+    + apply N.eqb_neq in Ec. destruct (D4 Ec) as (c' & t' & E' & Hne).
+      assert (Hall : all_digits (digits_of c ++ zeros (Z.to_nat e)) = true) by (rewrite all_digits_app, D1, all_digits_zeros; reflexivity).
+      assert (Hsp : split_char "." (digits_of c ++ zeros (Z.to_nat e)) = (digits_of c ++ zeros (Z.to_nat e), None))
+        by (apply split_char_none, lacksdot_digits; exact Hall).
+      cbv zeta. split; [|split; [|split]].
+      * unfold unsigned_plain. rewrite Hsp, Hall. rewrite Eds. reflexivity.
+      * rewrite E'. cbn [app no_leading_zero].
+        destruct c' as [[] [] [] [] [] [] [] []]; try reflexivity. contradiction.
+      * rewrite Eds. cbn [app]. eexists _, _. split; [reflexivity | exact Hc1].
+      * unfold unsigned_denotes. rewrite Hsp, digits_val_app_zeros, D2.
+        rewrite Z.min_l by lia. rewrite Z.sub_0_r, Z.pow_0_r.
+        rewrite N2Z.inj_mul, N2Z.inj_pow, nat_N_Z, Z2Nat.id by lia. change (Z.of_N 10) with 10.
+        rewrite Z.sub_0_r. lia.
+  - apply Z.ltb_ge in He. destruct (e =? 0) eqn:Ee.
+    + apply Z.eqb_eq in Ee. subst e.
+      assert (Hsp : split_char "." (digits_of c) = (digits_of c, None)) by (apply split_char_none; exact Hdot).
+      cbv zeta. split; [|split; [|split]].
+      * unfold unsigned_plain. rewrite Hsp, D1. rewrite Eds. reflexivity.
+      * destruct (N.eq_dec c 0) as [Z0|NZ]; [rewrite (D3 Z0); reflexivity|].
+        destruct (D4 NZ) as (c' & t' & E' & Hne). rewrite E'. cbn [no_leading_zero].
+        destruct c' as [[] [] [] [] [] [] [] []]; try reflexivity. contradiction.
+      * rewrite Eds. eexists _, _. split; [reflexivity | exact Hc1].
+      * unfold unsigned_denotes. rewrite Hsp, D2. reflexivity.
+    + apply Z.eqb_neq in Ee.
+      destruct (0 <? len (digits_of c) + e) eqn:Epre.
+      * apply Z.ltb_lt in Epre.
+        set (k := Z.to_nat (len (digits_of c) + e)).
+        assert (Hk : (0 < k < length (digits_of c))%nat) by (unfold k, len in *; lia).
+        assert (Hfn : firstn k (digits_of c) <> []).
+        { rewrite Eds. destruct k; [lia|]. cbn [firstn]. discriminate. }
+        assert (Hsn : skipn k (digits_of c) <> []).
+        { intros Z0. pose proof (skipn_length k (digits_of c)) as L. rewrite Z0 in L. cbn [length] in L. lia. }
+        assert (Hsp : split_char "." (firstn k (digits_of c) ++ "." :: skipn k (digits_of c)) = (firstn k (digits_of c), Some (skipn k (digits_of c)))).
+        { apply split_char_found, lacksdot_digits, all_digits_firstn; exact D1. }
+        cbv zeta. split; [|split; [|split]].
+        -- unfold unsigned_plain. rewrite Hsp. rewrite (nonempty_length _ Hfn), (nonempty_length _ Hsn).
+           rewrite (all_digits_firstn _ _ D1), (all_digits_skipn _ _ D1). reflexivity.
+        -- destruct (N.eq_dec c 0) as [Z0|NZ].
+           { exfalso. rewrite (D3 Z0) in Hk. cbn [length] in Hk. lia. }
+           destruct (D4 NZ) as (c' & t' & E' & Hne). rewrite E'. destruct k as [|k']; [lia|]. cbn [firstn app no_leading_zero].
+           destruct c' as [[] [] [] [] [] [] [] []]; try reflexivity. contradiction.
+        -- rewrite Eds. destruct k as [|k']; [lia|]. cbn [firstn app]. eexists _, _. split; [reflexivity | exact Hc1].
+        -- unfold unsigned_denotes. rewrite Hsp, firstn_skipn, D2.
+           assert (- len (skipn k (digits_of c)) = e) as ->.
+           { unfold len. rewrite skipn_length. unfold k, len in *. lia. }
+           reflexivity.
+      * apply Z.ltb_ge in Epre.
+        set (z := Z.to_nat (- (len (digits_of c) + e))).
+        assert (Hsp : split_char "." ("0" :: "." :: zeros z ++ digits_of c) = (["0"], Some (zeros z ++ digits_of c))).
+        { apply (split_char_found "." ["0"]). reflexivity. }
+        assert (Hall : all_digits (zeros z ++ digits_of c) = true) by (rewrite all_digits_app, all_digits_zeros, D1; reflexivity).
+        cbv zeta. split; [|split; [|split]].
+        -- unfold unsigned_plain. rewrite Hsp, Hall. rewrite (nonempty_length (zeros z ++ digits_of c)); [reflexivity|].
+           rewrite Eds. destruct (zeros z); discriminate.
+        -- reflexivity.
+        -- exists "0". eexists. split; reflexivity.
+        -- unfold unsigned_denotes. rewrite Hsp. cbn [app]. rewrite digits_val_cons0, digits_val_zeros_app, D2.
+           assert (- len (zeros z ++ digits_of c) = e) as ->.
+           { unfold len. rewrite app_length, zeros_length. unfold z, len in *. lia. }
+           reflexivity.
+Qed.
+
+Lemma strip_sign_signed : forall (b : bool) (u : str) (ch : ascii) (t : str), u = ch :: t -> is_digit ch = true ->
+  strip_sign ((if b then ["-"] else ([] : str)) ++ u) = (b, u).
+Proof.
+  intros b u ch t -> Hd. destruct b; [reflexivity|]. cbn [app].
+  assert (Ascii.eqb ch "-" = false) as Hm by (apply digit_not_minus; exact Hd).
+  unfold strip_sign. destruct ch as [[] [] [] [] [] [] [] []]; try discriminate Hm; reflexivity.
+Qed.
+
+(* HEADLINE: for every sign, every coefficient and every exponent the number is printed (no trap),
+   the text is plain decimal notation and a JSON number, and it denotes exactly the value *)
+Theorem plain_exact : forall d, exists s p,
+  print d = Some s /\ is_plain s = true /\ is_json s = true /\
+  denotes s = Some p /\ neg p = neg d /\ veq p d.
+Proof.
+  intros d. rewrite print_render.
+  pose proof (render_spec (coef d) (expo d)) as R. cbv zeta in R.
+  set (u := render_unsigned (coef d) (expo d)) in *.
+  destruct R as (R1 & R2 & (ch & t & Eu & Hch) & R4).
+  assert (SS : strip_sign (sign_of d ++ u) = (neg d, u)) by (exact (strip_sign_signed (neg d) u ch t Eu Hch)).
+  assert (Hplain : is_plain (sign_of d ++ u) = true) by (unfold is_plain; rewrite SS; exact R1).
+  unfold unsigned_denotes in R4.
+  destruct (split_char "." u) as [ip [fp|]] eqn:Esp.
+  - exists (sign_of d ++ u), (mkdec (neg d) (digits_val (ip ++ fp)) (- len fp)).
+    split; [reflexivity|]. split; [exact Hplain|]. split.
+    { unfold is_json. rewrite Hplain, SS. exact R2. }
+    split. { unfold denotes. rewrite Hplain, SS, Esp. reflexivity. }
+    split; [reflexivity|].
+    unfold veq, scaled, emin2, sval. cbn [neg coef expo]. destruct (neg d); lia.
+  - exists (sign_of d ++ u), (mkdec (neg d) (digits_val ip) 0).
+    split; [reflexivity|]. split; [exact Hplain|]. split.
+    { unfold is_json. rewrite Hplain, SS. exact R2. }
+    split. { unfold denotes. rewrite Hplain, SS, Esp. reflexivity. }
+    split; [reflexivity|].
+    unfold veq, scaled, emin2, sval. cbn [neg coef expo]. destruct (neg d); lia.
+Qed.
+
+(* the usize subtraction of the E+ branch never underflows, the exponent text always parses: print is total *)
+Corollary print_total : forall d, print d <> None.
+Proof. intros d. rewrite print_render. discriminate. Qed.
+
+(* a numeric literal "ip.fp" (token Numeric(before, after), xsd:decimal text): the datum handed to the rounding
+   step is exactly the number the text denotes *)
+Definition numeric_literal (ip fp : str) : dec := mkdec false (digits_val (ip ++ fp)) (- len fp).
+
+Theorem literal_exact : forall ip fp, all_digits ip = true -> all_digits fp = true -> ip <> [] -> fp <> [] ->
+  denotes (ip ++ "." :: fp) = Some (numeric_literal ip fp).
+Proof.
+  intros ip fp Hi Hf Ni Nf.
+  assert (Hsp : split_char "." (ip ++ "." :: fp) = (ip, Some fp)) by (apply split_char_found, lacksdot_digits; exact Hi).
+  assert (Hss : strip_sign (ip ++ "." :: fp) = (false, ip ++ "." :: fp)).
+  { destruct ip as [|a ip']; [contradiction|]. cbn in Hi. apply andb_true_iff in Hi. destruct Hi as [Ha _].
+    assert (Ascii.eqb a "-" = false) as Hm by (apply digit_not_minus; exact Ha).
+    cbn [app]. unfold strip_sign. destruct a as [[] [] [] [] [] [] [] []]; try discriminate Hm; reflexivity. }
+  unfold denotes, is_plain. rewrite Hss. cbn [snd]. unfold unsigned_plain. rewrite Hsp.
+  rewrite (nonempty_length _ Ni), (nonempty_length _ Nf), Hi, Hf. reflexivity.
+Qed.
+
+Theorem integer_literal_exact : forall ip, all_digits ip = true -> ip <> [] ->
+  denotes ip = Some (mkdec false (digits_val ip) 0).
+Proof.
+  intros ip Hi Ni.
+  assert (Hsp : split_char "." ip = (ip, None)) by (apply split_char_none, lacksdot_digits; exact Hi).
+  assert (Hss : strip_sign ip = (false, ip)).
+  { destruct ip as [|a ip']; [contradiction|]. cbn in Hi. apply andb_true_iff in Hi. destruct Hi as [Ha _].
+    assert (Ascii.eqb a "-" = false) as Hm by (apply digit_not_minus; exact Ha).
+    unfold strip_sign. destruct a as [[] [] [] [] [] [] [] []]; try discriminate Hm; reflexivity. }
+  unfold denotes, is_plain. rewrite Hss. cbn [snd]. unfold unsigned_plain. rewrite Hsp.
+  rewrite (nonempty_length _ Ni), Hi. reflexivity.
+Qed.
